@@ -9,45 +9,45 @@ package extractor
 
 //@ func HTMLAssets
 //@   property C10
-//@   sweep idx slice div assert
+//@   sweep idx slice div assert extnil
 //@   opaque
 //@   modifies models.URL::*!Hops!Redirects, models.Item::base
 //@ func HTMLOutlinks
 //@   property C10
-//@   sweep idx slice div assert
+//@   sweep idx slice div assert extnil
 //@   opaque
 //@   modifies models.URL::*!Hops!Redirects, models.Item::base
 //@   ensures [fresh-urls] freshslice(result0) && forall(j, 0, len(result0), result0[j] == nil || fresh(result0[j])) // assumed: the extractor builds a new list of new URL objects, it never hands back the page's own URL object
 //@ func PDF
 //@   property C10
-//@   sweep idx slice div assert
+//@   sweep idx slice div assert extnil
 //@   opaque
 //@   modifies models.URL::*!Hops!Redirects
 //@   ensures [fresh-urls] freshslice(result0) && forall(j, 0, len(result0), result0[j] == nil || fresh(result0[j])) // assumed: the extractor builds a new list of new URL objects, it never hands back the page's own URL object
 //@ func ExtractURLsFromHeader
 //@   property C10
-//@   sweep idx slice div assert
+//@   sweep idx slice div assert extnil
 //@   opaque
 //@   modifies nothing
 //@   ensures [fresh-urls] freshslice(result0) && forall(j, 0, len(result0), result0[j] == nil || fresh(result0[j])) // assumed: the extractor builds a new list of new URL objects, it never hands back the page's own URL object
 //@ func IsSitemapXML
 //@   property C10
-//@   sweep idx slice div assert
+//@   sweep idx slice div assert extnil
 //@   opaque
 //@   modifies models.URL::*!Hops!Redirects
 //@ func IsHTML
 //@   property C10
-//@   sweep idx slice div assert
+//@   sweep idx slice div assert extnil
 //@   opaque
 //@   modifies nothing
 //@ func IsPDF
 //@   property C10
-//@   sweep idx slice div assert
+//@   sweep idx slice div assert extnil
 //@   opaque
 //@   modifies nothing
 //@ func IsS3
 //@   property C10
-//@   sweep idx slice div assert
+//@   sweep idx slice div assert extnil
 //@   opaque
 //@   modifies nothing
 // IsM3U8: a response announcing either playlist media type, in any letter case and with or
@@ -55,24 +55,24 @@ package extractor
 //@ pred ctHas(u *models.URL, t string) = strings.Contains(strings.ToLower(u.response.Header.Get("Content-Type")), t)
 //@ func IsM3U8
 //@   property C10,C19
-//@   sweep idx slice div assert
+//@   sweep idx slice div assert extnil
 //@   attr proved types
 //@   opaque
 //@   modifies nothing
 //@   ensures [types] @C19 result == (ctHas(URL, "application/vnd.apple.mpegurl") || ctHas(URL, "application/x-mpegurl")) // C19: from an M3U8 playlist every segment, variant and alternative-rendition URI (the dispatch recognises both playlist media types)
 //@ func IsJSON
 //@   property C10
-//@   sweep idx slice div assert
+//@   sweep idx slice div assert extnil
 //@   opaque
 //@   modifies nothing
 //@ func IsXML
 //@   property C10
-//@   sweep idx slice div assert
+//@   sweep idx slice div assert extnil
 //@   opaque
 //@   modifies nothing
 //@ func S3
 //@   property C10
-//@   sweep idx slice div assert
+//@   sweep idx slice div assert extnil
 //@   opaque
 //@   modifies models.URL::*!Hops!Redirects
 //@   ensures [fresh-urls] freshslice(result0) && forall(j, 0, len(result0), result0[j] == nil || fresh(result0[j])) // assumed: the extractor builds a new list of new URL objects, it never hands back the page's own URL object
